@@ -288,6 +288,8 @@ func ParseRealtime(content []byte, opts *ParseRealtimeOptions) (*Realtime, error
 
 	tripsById := map[TripID]*Trip{}
 	vehiclesByID := map[VehicleID]*Vehicle{}
+	// Vehicle IDs in order of first appearance in the feed, for deterministic output.
+	var vehicleIDs []VehicleID
 	tripIDToVehicleID := map[TripID]VehicleID{}
 	vehicleIDToTripID := map[VehicleID]TripID{}
 	vehiclesWithNoID := []*Vehicle{}
@@ -337,6 +339,7 @@ func ParseRealtime(content []byte, opts *ParseRealtimeOptions) (*Realtime, error
 			if vehicle.ID != nil {
 				if _, ok := vehiclesByID[*vehicle.ID]; !ok {
 					vehiclesByID[*vehicle.ID] = &Vehicle{}
+					vehicleIDs = append(vehicleIDs, *vehicle.ID)
 				}
 				mergeVehicle(vehiclesByID[*vehicle.ID], *vehicle)
 			} else {
@@ -369,7 +372,8 @@ func ParseRealtime(content []byte, opts *ParseRealtimeOptions) (*Realtime, error
 		return result.Trips[i].ID.Less(result.Trips[j].ID)
 	})
 
-	for vehicleID, vehicle := range vehiclesByID {
+	for _, vehicleID := range vehicleIDs {
+		vehicle := vehiclesByID[vehicleID]
 		if tripID, ok := vehicleIDToTripID[vehicleID]; ok {
 			vehicle.Trip = tripsById[tripID]
 		}
